@@ -12,6 +12,8 @@ from __future__ import annotations
 
 import itertools
 
+import math
+
 import numpy as np
 
 from checks.common import relayout, xf_build, xf_names, si_cells
@@ -191,6 +193,18 @@ def cases(tier, seed):
                         for mode in ("LU", "LUP"):
                             out.append({"key": f"rankprofile/m={m}/n={n}/I={''.join(map(str, I))}/J={''.join(map(str, J))}/{mode}", "cls": "rankprofile", "m": m, "n": n,
                                         "I": list(I), "J": list(J), "mode": mode})
+    # pivot candidates whose 1-norm / max-norm ordering differs from their modulus ordering: one entry concentrated in a single component
+    # (modulus r) against an entry spread over k = 2, 3, 4 equal components with a slightly SMALLER modulus (but up to twice the 1-norm and
+    # a smaller max-component); every component position, both row orders, pivot column 0..2 (behind a decoupled leading block)
+    for k in (2, 3, 4):
+        for comp in range(4):
+            for ratio_i, ratio in enumerate((0.999, 0.97, 0.9)):
+                for order in (0, 1):
+                    for pc in (0, 1, 2):
+                        for extra in (0, 2):
+                            for mode in ("LU", "LUP"):
+                                out.append({"key": f"l1l2/k={k}/comp={comp}/r={ratio_i}/o={order}/pc={pc}/x={extra}/{mode}", "cls": "l1l2", "m": pc + 2 + extra, "n": pc + 2, "k": k, "comp": comp,
+                                            "ratio": ratio, "order": order, "pc": pc, "mode": mode})
     # a few larger sizes (blocked / panelled code paths): enumerated list, generic entries
     for (m, n) in ((65, 3), (70, 4), (130, 2), (3, 70), (40, 40)):
         for mode in ("LU", "LUP"):
@@ -356,6 +370,24 @@ def run_case(case, seed):
     elif cls == "xf":
         fill = G.Fill(seed, stream=hash_tag(case["key"].rsplit("/", 1)[0]))
         A, lay = xf_build(case["xf"], m, n, fill)
+    elif cls == "l1l2":
+        fill = G.Fill(seed, stream=hash_tag(case["key"].rsplit("/", 1)[0]))
+        A = fill.quat(m, n, bits=3, lo=-4, hi=4) * 0.125  # |components| <= 0.5: never a pivot candidate
+        pc, k = case["pc"], case["k"]
+        for t in range(pc):  # decoupled leading block 4 I
+            A[t, :] = 0.0
+            A[:, t] = 0.0
+            A[t, t, 0] = 4.0
+        single = np.zeros(4)
+        single[case["comp"]] = 2.0 * (-1.0 if case["comp"] % 2 else 1.0)
+        spread = np.zeros(4)
+        sgn = [1.0, -1.0, 1.0, 1.0]
+        pos = [(case["comp"] + 1 + t) % 4 for t in range(k)] if k < 4 else [0, 1, 2, 3]
+        for t in pos:
+            spread[t] = sgn[t] * 2.0 * case["ratio"] / math.sqrt(k)
+        r1, r2 = (pc, m - 1) if case["order"] == 0 else (m - 1, pc)
+        A[r1, pc] = single
+        A[r2, pc] = spread
     elif cls == "tie":
         fill = G.Fill(seed, stream=hash_tag(case["key"]))
         A = fill.quat(m, n, bits=2, lo=-8, hi=8)
